@@ -54,23 +54,30 @@ impl CopySource {
     /// # Errors
     /// Returns an error if the header is invalid
     pub fn parse(header: &str) -> Result<Self, ParseCopySourceError> {
-        let header = urlencoding::decode(header).map_err(|_| ParseCopySourceError::InvalidEncoding)?;
-        let header = header.strip_prefix('/').unwrap_or(&header);
+        // the version id is a query parameter of the percent-encoded source: split before decoding,
+        // so that an encoded `?` (`%3F`) stays part of the key
+        let (path, version_id) = match header.split_once('?') {
+            Some((path, query)) => {
+                let version_id = query
+                    .split_once('=')
+                    .and_then(|(name, val)| (name == "versionId").then_some(val));
+                (path, version_id)
+            }
+            None => (header, None),
+        };
+
+        let path = urlencoding::decode(path).map_err(|_| ParseCopySourceError::InvalidEncoding)?;
+        let path = path.strip_prefix('/').unwrap_or(&path);
+
+        let version_id = match version_id {
+            Some(v) => Some(urlencoding::decode(v).map_err(|_| ParseCopySourceError::InvalidEncoding)?),
+            None => None,
+        };
 
         // FIXME: support access point
-        match header.split_once('/') {
+        match path.split_once('/') {
             None => Err(ParseCopySourceError::PatternMismatch),
-            Some((bucket, remaining)) => {
-                let (key, version_id) = match remaining.split_once('?') {
-                    Some((key, remaining)) => {
-                        let version_id = remaining
-                            .split_once('=')
-                            .and_then(|(name, val)| (name == "versionId").then_some(val));
-                        (key, version_id)
-                    }
-                    None => (remaining, None),
-                };
-
+            Some((bucket, key)) => {
                 if !path::check_bucket_name(bucket) {
                     return Err(ParseCopySourceError::InvalidBucketName);
                 }
@@ -82,7 +89,7 @@ impl CopySource {
                 Ok(Self::Bucket {
                     bucket: bucket.into(),
                     key: key.into(),
-                    version_id: version_id.map(Into::into),
+                    version_id: version_id.map(|v| v.as_ref().into()),
                 })
             }
         }
